@@ -507,9 +507,23 @@ func TestC10(t *testing.T) {
 
 		defer os.RemoveAll(dir)
 
-		rejecting(c, dir)
-		cancelled(c, dir)
-		crashes(c, dir)
+		// (development aid: VERIF_C10_ONLY=<family> runs one family; the run is then inconclusive by construction - required counters stay zero)
+		only := os.Getenv("VERIF_C10_ONLY")
+		if only == "" || only == "rejecting" {
+			rejecting(c, dir)
+		}
+
+		if only == "" || only == "cancelled" {
+			cancelled(c, dir)
+		}
+
+		if only == "" || only == "twons" {
+			twoNamespaces(c, dir)
+		}
+
+		if only == "" || only == "crashes" {
+			crashes(c, dir)
+		}
 	})
 }
 
